@@ -140,6 +140,7 @@ def run_real(case, spelling="arr", short_run=False):
         return float(np.sum((np.asarray(x, dtype=float) - 0.3) ** 2))
 
     args = [spell(v, spelling) for v in case]
+    before = [None if a is None else repr(a) for a in args]      # the caller's own objects must still spell the same vectors afterwards
     opts = {"display": "off", "random_seed": 1}
     if short_run:
         opts["max_fun_evals"] = 20
@@ -163,6 +164,7 @@ def run_real(case, spelling="arr", short_run=False):
         return dict(kind="crash", tag=type(ex).__name__, msg=" ".join(str(ex).split())[:90], calls=len(calls))
     vt = b.var_transf
     D = b.D
+    changed = [NAMES[i] for i, a in enumerate(args) if before[i] is not None and repr(a) != before[i]]
     arrs = dict(x0=b.x0, lb=vt.orig_lb, ub=vt.orig_ub, plb=vt.orig_plb, pub=vt.orig_pub)
     res = dict(kind="accept", D=int(D), drawn=bool(drawn), calls=len(calls),
                shapes_ok=all(np.asarray(a).shape == (1, D) for a in arrs.values()),
@@ -171,6 +173,7 @@ def run_real(case, spelling="arr", short_run=False):
                             for k in ("lb", "ub", "plb", "pub")))
     for k, a in arrs.items():
         res[k] = _flat(a)
+    res["caller_vectors_changed"] = changed
     # transformed-space problem (used by the spelling comparison only)
     res["tr"] = dict(lb=_flat(b.lower_bounds), ub=_flat(b.upper_bounds), plb=_flat(b.plausible_lower_bounds),
                      pub=_flat(b.plausible_upper_bounds), u=_flat(b.u), log=[bool(v) for v in np.asarray(vt.apply_log_t).reshape(-1)])
@@ -366,6 +369,9 @@ def monitor(case, res):
             return None
         return classify_violation(case, res, bad), f"valid definition rejected with ValueError [{res['tag']}]: {res['msg']}"
     # accepted: normal form
+    if res.get("caller_vectors_changed"):
+        return "caller-vectors-changed", (f"the constructor modified the caller's own {res['caller_vectors_changed']} object(s): the same objects handed to "
+                                          "another construction (any spelling) no longer define the same problem")
     x0, lb, ub, plb, pub = case
     if not (res["shapes_ok"] and res["state_ok"]):
         return "normal-form-shape", "normalised vectors are not all (1, D) / optim_state copies differ"
